@@ -59,7 +59,7 @@ def vecs(l):
 
 def bias_block(sc, j):
     b = sc["biases"][j]
-    kw = {"H": "harmonic", "L": "linear", "W": "harmonicWalls", "A": "abmd", "G": "histogram", "F": "abf"}[b["kind"]]
+    kw = {"H": "harmonic", "L": "linear", "W": "harmonicWalls", "A": "abmd", "G": "histogram", "F": "abf", "FA": "abf"}[b["kind"]]
     L = [kw + " {", "  name b%d" % j, "  colvars " + " ".join("v%d" % i for i in b["vars"])]
     if b["tsf"] != 1:
         L.append("  timeStepFactor %d" % b["tsf"])
@@ -71,11 +71,13 @@ def bias_block(sc, j):
         L += ["  forceConstant %r" % b["k"], "  stoppingValue %r" % b["stop"], "  decreasing %s" % ("on" if b["dec"] else "off")]
     elif b["kind"] == "F":
         L += ["  applyBias off", "  fullSamples 1"]
+    elif b["kind"] == "FA":
+        L += ["  fullSamples %d" % b.get("full", 2)]
     L.append("}")
     return L
 
 
-RANK = {"F": 0, "A": 1, "H": 3, "W": 4, "G": 5, "L": 7}
+RANK = {"F": 0, "FA": 0, "A": 1, "H": 3, "W": 4, "G": 5, "L": 7}
 
 
 def impl_order(sc, subset):
@@ -812,6 +814,40 @@ def oracle_ext(run, sc, R):
                     return
 
 
+def abfcoupling_scenario(r, k):
+    """a force-reading bias next to another bias under the documented coupling: ABF (applyBias on) and a restraint on the
+    same one-atom distanceZ variable with subtractAppliedForce, lagged engine forces; A+B, ABF alone, restraint alone
+    (C08_abf_coupling: same samples, hence same ABF force, hence exact superposition)"""
+    v = {"tsf": 1, "w": 1.0, "extra": ["subtractAppliedForce on"],
+         "comps": [{"main": [0], "ref": [], "axis": 2, "coeff": 1.0, "np": 1, "onesite": True}]}
+    biases = [{"kind": "FA", "tsf": 1, "vars": [0], "k": 0.0, "full": r.choice([1, 2, 4])},
+              {"kind": r.choice(["H", "L", "H"]), "tsf": r.choice([1, 1, 2]), "vars": [0], "k": r.choice([1.0, 2.0, 4.0]),
+               "centers": [dy(r, -2, 2, 2)]}]
+    ev = []
+    z = dy(r, -2, 2, 2)
+    for s_ in range(r.randint(8, 14)):
+        if r.random() < 0.6:
+            z = dy(r, -3, 3, 2)
+        ev.append(("S", [[0.0, 0.0, z], [0.0, 0.0, 0.0]], [[0.0, 0.0, dy(r, -4, 4, 3)], [0.0, 0.0, 0.0]]))
+    return {"id": k, "family": "abfcoupling", "natoms": 2, "mass": [1.0, 1.0], "vars": [v], "biases": biases, "it0": 0,
+            "events": ev, "A": [0], "B": [1], "samestep": False}
+
+
+def oracle_abf_coupling(run, sc, R):
+    """O9: the ABF force is the same at every step with and without the other bias"""
+    sAB, sA = R["AB"]["steps"], R["A"]["steps"]
+    nz = 0
+    for s in range(min(first_error(sAB), first_error(sA))):
+        fab = [b for b in sAB[s]["B"] if b["name"] == "b0"][0]["F"]
+        fa = [b for b in sA[s]["B"] if b["name"] == "b0"][0]["F"]
+        nz += 1 if any(x != 0.0 for x in fa) else 0
+        if len(fab) != len(fa) or any(not close(x, y) for x, y in zip(fab, fa)):
+            run.violation("pipeline:abf-coupling:force", "scenario %d step %d (it=%d): the ABF force is %s next to the restraint and %s alone (subtractAppliedForce, lagged forces)"
+                          % (sc["id"], s, sAB[s]["it"], fab, fa), replay_of(sc, {"AB": [0, 1], "A": [0]}, {"step_index": s}))
+            return nz
+    return nz
+
+
 def coupling_scenario(r, k):
     """lagged engine forces that include the Colvars forces, a one-atom distanceZ variable with subtractAppliedForce and
     outputTotalForce, two restraints: the total force reported at step t+1 must be the engine's own force of step t,
@@ -882,7 +918,7 @@ def run_batch(unit, model, scs, d):
         for t, sub in subsets.items():
             tag = "%d:%s" % (sc["id"], t)
             L += scenario_lines(sc, sub, tag)
-            if all(sc["biases"][j]["kind"] != "F" for j in sub) and sc["family"] != "ext":
+            if all(sc["biases"][j]["kind"] not in ("F", "FA") for j in sub) and sc["family"] != "ext":
                 M.append(model_case(sc, sub))
                 keys.append(tag)
     rc, out, err = V.run_lines(unit, L, timeout=1200, cwd=d)
@@ -933,11 +969,15 @@ def check(run):
     for _ in range(12 if quick else 300):
         scs.append(ext_scenario(r, k))
         k += 1
+    for _ in range(12 if quick else 300):
+        scs.append(abfcoupling_scenario(r, k))
+        k += 1
 
     # batches keep the harness input small
     BATCH = 200
     windows = 0
     zero_skipped = 0
+    abf_nonzero = 0
     for b0 in range(0, len(scs), BATCH):
         batch = scs[b0:b0 + BATCH]
         impl, mod, (rc, err) = run_batch(unit, model, batch, d)
@@ -969,7 +1009,7 @@ def check(run):
                 if tag in mod:
                     msteps = parse_model_line(mod[tag], sc["natoms"])
                     compare_model(run, sc, t, sub, msteps, isteps)
-                if sc["family"] not in ("nonbiasing", "ext"):
+                if sc["family"] not in ("nonbiasing", "ext", "abfcoupling"):
                     oracle_spec(run, sc, t, sub, isteps)
                     w = oracle_impulse(run, sc, t, sub, isteps)
                     windows += w
@@ -985,6 +1025,8 @@ def check(run):
                     oracle_nonbiasing(run, sc, R)
                 if sc["family"] == "ext":
                     oracle_ext(run, sc, R)
+                if sc["family"] == "abfcoupling":
+                    abf_nonzero += oracle_abf_coupling(run, sc, R)
                 if sc["family"] == "coupling":
                     # second model pass: tf_trace on the system forces and the applied forces of the pipeline model
                     tl, tk = [], []
@@ -1009,7 +1051,8 @@ def check(run):
                 run.sample({"scenario": {kk: vv for kk, vv in sc.items() if not kk.startswith("_")},
                             "script_AB": scenario_lines(sc, sorted(sc["A"] + sc["B"]), "x")[:60]})
     run.cov["correspondence"].update({"scenarios": len(scs), "impulse_windows_checked": windows,
-                                      "coupling_steps_with_total_force_exactly_zero": zero_skipped})
+                                      "coupling_steps_with_total_force_exactly_zero": zero_skipped,
+                                      "abf_coupling_steps_with_nonzero_abf_force": abf_nonzero})
 
 
 def replay(path):
